@@ -1,5 +1,6 @@
 import Goat.Lemmas.OMap
 import Goat.Model.Tuple
+import Goat.Gen.Tables
 /-!
 # C10 — script maps behave like Go maps under any history of operations
 
@@ -406,6 +407,10 @@ example : runOn false [0] [(some 0, 1), (some 0, 2)] = [1] ∧ runOn true [0] [(
 example : Distinct [((some 0 : Option Nat), (5 : Int)), (some 1, 6), (none, 7)] := by
   simp [Distinct, firstFor]
 
+/-- the regenerated tie: compile's `case "="` still evaluates target operands, then the right-hand
+    side once, then emits the stores in one loop from the last target to the first (goatx) -/
+theorem tuple_tie : Gen.tupleStoresLastFirst = true := by decide
+
 end Tuple
 
 end Goat.Props.C10
@@ -427,3 +432,4 @@ end Goat.Props.C10
 #print axioms Goat.Props.C10.impl_reads_first
 #print axioms Goat.Props.C10.tuple_assign_distinct
 #print axioms Goat.Props.C10.tuple_assign_differs_iff
+#print axioms Goat.Props.C10.tuple_tie
